@@ -5,7 +5,8 @@ import vf
 
 
 def workdir(name):
-    d = os.path.join(vf.BUILD, "work", name)
+    # per-process scratch space: several checks (or the same check against a mutated copy) may run at the same time
+    d = os.path.join(vf.BUILD, "work", "p%d" % os.getpid(), name)
     os.makedirs(d, exist_ok=True)
     return d
 
